@@ -227,6 +227,12 @@ func (t *c19Task) run(op c19Op, sh *c19Shared) (res string) {
 	case "parse-merged":
 		// merges at several depths, with key names that other documents also use: every merged key must arrive
 		doc := "tmpl: &t\n  command: from-template\n  label: L\n  env: &e\n    GOOD: \"1\"\n    A: b\nsteps:\n  - <<: *t\n  - group: g\n    steps:\n      - <<: *t\n        env:\n          <<: *e\n          MORE: x\n      - group: inner\n        steps:\n          - <<: *t\n            key: deep\n"
+		if op.arg%2 == 1 {
+			// right after documents that fail half-way through mappings holding the same key names
+			for _, bad := range []string{"steps:\n  - command: a\n    label: b\n    key: k\n    env: {GOOD: 1}\n    ~: x\n", "steps:\n  - group: g\n    steps:\n      - command: a\n        env:\n          GOOD: 1\n          A: 2\n          MORE: 3\n          ~: x\n", "tmpl:\n  command: c\n  label: l\n  env: e\n  ? [1]\n  : x\n"} {
+				pipeline.Parse(strings.NewReader(bad))
+			}
+		}
 		pl, err := pipeline.Parse(strings.NewReader(doc))
 		if pl == nil {
 			return fmt.Sprintf("parse-merged failed: %v", err)
